@@ -19,6 +19,14 @@ class PrintUnit(Unit):
     def verus_text(self, ctx, prog, pre, asm, lemmas):
         inner = prog.inner.verus_enum() if prog.inner else ''
         return '\n'.join([prog.aux_verus, inner, prog.verus_enum(), pre, asm.text, lemmas])
+    def kani_module(self, ctx, prog):
+        return spec_print.kani_module(prog, want_names=True)
+    def kani_harnesses(self, ctx, prog):
+        if ctx.pid != 'C03':
+            return []
+        return spec_print.kani_harness_list(prog, want_names=True)
+    def twin_of(self, ctx, prog, fn):
+        return None
     def sample(self, ctx, prog, plan):
         k = (prog.name, 'Display', 'fmt')
         if k in plan:
